@@ -462,8 +462,8 @@ def outcome_model_cases(run):
     if run.tier == "thorough":
         pool = [A, B, C, D, F]
         for _ in range(25):
-            seqs.append([dict(pool[int(run.rng.integers(len(pool)))])
-                         for _ in range(int(run.rng.integers(2, 6)))])
+            seqs.append([dict(pool[run.rng.randrange(len(pool))])
+                         for _ in range(run.rng.randrange(2, 6))])
     exprs, descr = [], []
     nfit.IndentationFitter._fit = wrapped
     try:
